@@ -83,8 +83,10 @@ class G11:
             return f'(-{self.expr(d + 1)})'
         if k < 0.88:
             return f'fp.fma({self.atom()}, {self.atom()}, {self.atom()})'
-        if k < 0.93:
+        if k < 0.91:
             return f'{r.choice(["min", "max"])}({self.expr(d + 1)}, {self.expr(d + 1)})'
+        if k < 0.93:
+            return f'{r.choice(["min", "max"])}({r.choice(CONSTS)}, {self.atom()}, {self.atom()})'
         if k < 0.96:
             return f'len({r.choice(self.lists)})'
         return f'({self.expr(d + 1)} if {self.atom()} < {self.atom()} else {self.expr(d + 1)})'
@@ -166,6 +168,44 @@ class G11:
         return HELPERS + '\n'.join(['@fp.fpy', f'def {name}(x: fp.Real, y: fp.Real, xs: list[fp.Real]):', f'    with {ctx}:'] + inner
                                    + [f'        return {ret}'])
 
+
+HAND11 = {
+    'hand_minmax3': '''@fp.fpy
+def hand_minmax3(x: fp.Real, y: fp.Real, xs: list[fp.Real]):
+    with fp.FP64:
+        a = min(1, x, y)
+        b = max(-1, x, y)
+        c = min(x, y, xs[0])
+        d = max(2.5, xs[0], xs[1], x)
+        if x != 0:
+            e = min(x, y, xs[1])
+        else:
+            e = max(x, xs[0], y)
+        return (a, b, c, d, e)''',
+    'hand_nested3': '''@fp.fpy
+def hand_nested3(x: fp.Real, y: fp.Real, xs: list[fp.Real]):
+    with fp.FP64:
+        ys = [x, y]
+        zs = [y, x]
+        m = [[xs, zs], [zs, xs]]
+        row = m[0][1]
+        m[0][1] = ys
+        a = row[0] * 100 + m[0][1][0]
+        keep = m[1][0]
+        m[1][0] = xs
+        keep[1] = x + y
+        return (a, row, keep, m[1][0][0], zs)''',
+    'hand_alias_write': '''@fp.fpy
+def hand_alias_write(x: fp.Real, y: fp.Real, xs: list[fp.Real]):
+    with fp.FP64:
+        ys = xs
+        t = bump(ys, x)
+        rows = [xs, [x, y]]
+        r = rows[0]
+        r[1] = t
+        u = bump(rows[1], y)
+        return (xs, ys, t, u, rows[1])''',
+}
 
 POOL = [0.0, -0.0, 1.0, -1.0, 2.5, -3.0, 0.5, -0.25, 0.1, 100.0, 1e-10, 5e-324, float('inf'), float('-inf'), float('nan'), 1.5, 7.0, 0.3]
 
@@ -260,6 +300,8 @@ def record(job):
     try:
         nprog = 4 if tier == 'quick' else 16
         srcs = {}
+        if k == 0:
+            srcs.update({n: HELPERS + t for n, t in HAND11.items()})
         for i in range(nprog):
             name = f'c11_{k}_{i}'
             srcs[name] = G11(rng).program(name)
@@ -269,9 +311,14 @@ def record(job):
         for name, f in funcs.items():
             src = srcs[name]
             samples = []
-            for i in range(16 if tier == 'quick' else 40):
+            special = [0.0, -0.0, 1.0, -1.0, float('nan'), float('inf'), 2.5]
+            grid = [[a, b, [c, d]] for a in special for b in special for (c, d) in ((0.0, -0.0), (-0.0, 0.0), (3.0, float('nan')), (-1.0, 0.5))]
+            nsamp = len(grid) if name in HAND11 else (16 if tier == 'quick' else 40)
+            for i in range(nsamp):
                 L = [2, 3, 2, 4][i % 4]
                 args = [rng.choice(POOL), rng.choice(POOL), [rng.choice(POOL[:12] if rng.random() < 0.8 else POOL) for _ in range(L)]]
+                if name in HAND11:
+                    args = [grid[i][0], grid[i][1], list(grid[i][2])]      # every combination of signed zeros, NaN, infinity
                 o = progrun.run_real(f, [args[0], args[1], list(args[2])], fp.FP64)
                 if 'err' in o or 'ood' in o:
                     stats['interpreter-did-not-return'] += 1
